@@ -19,7 +19,14 @@ Init == /\ l = 1 /\ T = [k |-> "gone", limit |-> 0] /\ side = "buf" /\ pid = -1 
 Next ==
   /\ l <= Len(Rec)
   /\ LET e == Rec[l]
+         \* the process died (abort) or the operation did not return (hang): no cursor / sink law
+         \* allows either -- every operation returns or panics
+         dead == IF side = "buf"
+                 THEN {<<"C09", "returns_or_panics">>} \cup (IF e.op = "get" THEN {<<"C10", "returns_or_panics">>} ELSE {})
+                      \cup (IF HasAdapter(T) \/ e.op \in {"read", "fill_buf", "consume"} THEN {<<"C12", "returns_or_panics">>} ELSE {})
+                 ELSE {<<"C11", "returns_or_panics">>} \cup (IF HasAdapter(T) \/ e.op = "write" THEN {<<"C12", "returns_or_panics">>} ELSE {})
          R == IF e.op = "reset" THEN [V |-> {}]
+              ELSE IF e.out \in {"abort", "hang"} THEN [V |-> dead]
               ELSE IF side = "buf" THEN BufStep(T, e) ELSE MutStep(T, e)
          newV == {v \in R.V : v[1] \notin tainted}     \* first violation per property and program
          report == newV # {}
